@@ -381,7 +381,8 @@ func b2i(b bool) int {
 //@   ensures[local-global-loaded-in-place] forceLoad && index >= c.m.ImportGlobalCount ==> ssa.IsLoaded(r0) && ssa.LoadedFrom(r0) == c.moduleCtxPtrValue && ssa.LoadedAt(r0) == uint64(uint32(c.offset.GlobalInstanceOffset(index)))
 //@   records ggIndex = int(index)
 //@   records ggRet = int(r0)
-//@   modifies ghost("*")
+//@   records H:globalReloads = old(gg("H:globalReloads")) + b2i(forceLoad)
+//@   modifies ghost("*"), ghost("H:globalReloads")
 //@   nosafety keep-pre
 
 //@ case global.set (c *Compiler) lowerCurrentOpcode()
@@ -426,7 +427,7 @@ func b2i(b bool) int {
 // ---- C02 / C14: the memory base and length that later checks use are the values cached for the current
 // linear path; every instruction after which they may have changed - memory.grow and every call - is
 // followed by a forced reload of both (history ghosts count the forced reloads).
-//@ prop C02 C14
+//@ prop C02 C14 C04
 //@ func (c *Compiler) reloadMemoryBaseLen()
 //@   requires c.ssaBuilder != nil
 //@   ensures[both-reloaded] gg("H:lenReloads") == old(gg("H:lenReloads"))+1 && gg("H:baseReloads") == old(gg("H:baseReloads"))+1
@@ -436,7 +437,10 @@ func b2i(b bool) int {
 //@ func (c *Compiler) reloadAfterCall()
 //@   requires c.ssaBuilder != nil && c.m != nil
 //@   ensures[memory-reloaded-unless-it-cannot-move] c.needMemory && !c.memoryShared ==> gg("H:lenReloads") == old(gg("H:lenReloads"))+1 && gg("H:baseReloads") == old(gg("H:baseReloads"))+1
-//@   modifies ghost("*"), ghost("H:lenReloads"), ghost("H:baseReloads"), elems(c.knownSafeBounds)
+//@   ensures[every-mutable-global-reloaded] gg("H:globalReloads") == old(gg("H:globalReloads")) + len(c.mutableGlobalVariablesIndexes)
+//@   modifies ghost("*"), ghost("H:lenReloads"), ghost("H:baseReloads"), ghost("H:globalReloads"), elems(c.knownSafeBounds)
+//@   loop 0 (rangeindex int)
+//@     invariant -1 <= rangeindex && rangeindex < len(c.mutableGlobalVariablesIndexes) && gg("H:globalReloads") == old[int](gg("H:globalReloads")) + rangeindex + 1
 //@   nosafety
 
 //@ case memory.grow (c *Compiler) lowerCurrentOpcode()
